@@ -82,7 +82,7 @@ pub mod verif_hooks {
     pub use crate::compiler::string_scanner::StringScanner;
     pub use crate::compiler::syntax_error::SyntaxError;
     pub use crate::compiler::tokens::{FStringSegment, Token};
-    pub use crate::context::{construct_type, verif_funcs};
+    pub use crate::context::{construct_type, verif_duration_inner, verif_funcs};
     pub use crate::interp::{ByteCode, Interpreter, JmpWhen};
     pub use crate::types::{CelByteCode, CelBytes};
     pub use crate::utils::ScopedCounter;
